@@ -215,11 +215,24 @@ pub fn operation(p: &mut Parser<'_>, mut skip: Skip) -> Result<Option<Skip>> {
             stack.push((open.clone(), priority, extra));
         }
 
-        while let Some(prev) = stack.last_mut() {
+        while let Some(prev) = stack.last() {
             match priority.cmp(&prev.1) {
                 Ordering::Less => {
                     p.close_at(&prev.0, OPERATION)?;
-                    *prev = (prev.0.clone(), priority, extra);
+
+                    // The closed operation is an operand of the level below if
+                    // that level binds at least as loosely as the new operator,
+                    // otherwise it becomes the first operand of a new level
+                    // that starts at the same checkpoint.
+                    let n = stack.len();
+
+                    if n >= 2 && stack[n - 2].1 >= priority {
+                        stack.pop();
+                    } else {
+                        stack[n - 1].1 = priority;
+                        stack[n - 1].2 = extra;
+                    }
+
                     continue;
                 }
                 Ordering::Greater => {
